@@ -137,6 +137,7 @@ def run_kani(overlay, harnesses, target="lib", harness_timeout=120, jobs=8, tota
     cmd += list(extra_args)
     env = dict(os.environ)
     env["CARGO_NET_OFFLINE"] = "true"
+    env["VERIF_HARNESS_DIR"] = ov.HARNESS_DIR
     env.pop("RUSTUP_TOOLCHAIN", None)
     if total_timeout is None:
         # compile (<= 240 s) + harnesses in waves
